@@ -179,6 +179,7 @@ ING_FEATURE = {
     "plan_length_metric": "PLAN_LENGTH",
 }
 _PROBLEMS = {}
+_SUP = {}
 
 
 def build_problem(ings):
@@ -276,7 +277,10 @@ class Batch:
                 "any": [k.name for k in L.AnytimeGuarantee if E.ensures(k)] if hasattr(E, "ensures") else [],
             }
             nf = len(self.universe)
-            rec["sup"] = [m for m in range(2**nf) if E.supports(self.kind_of([j + 1 for j in range(nf) if (m >> j) & 1]))]
+            key = (E, tuple(self.universe))
+            if key not in _SUP:  # the same class object answers the same in every batch
+                _SUP[key] = [m for m in range(2**nf) if E.supports(self.kind_of([j + 1 for j in range(nf) if (m >> j) & 1]))]
+            rec["sup"] = _SUP[key]
         return rec
 
     def kind_of(self, ids):
@@ -569,8 +573,8 @@ def judge(ctx, label, batches, stats_all):
 # ----------------------------------------------------------------------------------------
 def bounds(ctx):
     if ctx.quick:
-        return dict(nf=7, groups=16, nc=24, pipelen=2, npipe=5, allck="FALSE")
-    return dict(nf=9, groups=8, nc=200, pipelen=3, npipe=7, allck="TRUE")
+        return dict(nf=6, groups=8, nc=24, pipelen=2, npipe=5, allck="FALSE")
+    return dict(nf=8, groups=64, nc=80, pipelen=3, npipe=6, allck="TRUE")
 
 
 def design_check(ctx):
@@ -631,21 +635,20 @@ def collect(ctx, bnd, univ, reqs, probs, cfgs):
     """T2: issue every request on fresh Environments; returns the batches."""
     q = ctx.quick
     universe = univ["universe"]
-    # the built-in registry: every request under the default and the reversed preference list; under a
-    # strict sub-list and a rotation every request (thorough) / the kind slices 0, 4, 8, .. (quick)
+    # the built-in registry: every request under the default preference list, every (quick) / every second
+    # kind slice (thorough) under the reversed one, every fourth slice under a strict sub-list and a rotation
     batches = []
     b0 = Batch(ctx, 0, universe, [])
     for f in universe:
         if all(b0.fid[f] in e["feats"] for e in b0.engines):
             raise MachineryError("universe feature %s is supported by every built-in engine (does not straddle)" % f)
-    for scheme in ["default", "reversed", "every_other", "rotated"]:
+    for scheme, every in [("default", 1), ("reversed", 1 if q else 2), ("every_other", 4), ("rotated", 4)]:
         p = b0.install(scheme)
-        part = q and scheme in ("every_other", "rotated")
         for r in reqs:
-            if not part or r["grp"] % 4 == 0:
+            if r["grp"] % every == 0:
                 b0.kind_request(r, p)
         for r in probs:
-            if not part or r["grp"] % 4 == 0:
+            if r["grp"] % every == 0:
                 b0.problem_request(r, p)
     batches.append(b0)
     # registries with three mock engines: one kind slice each, two preference-list schemes
@@ -707,10 +710,10 @@ def run(ctx):
         "T1: exhaustive check of Factory's Impl layer against its Spec layer over small registries (MCFactory). "
         "T2/T3: TLC (FactoryEnum) emits every request over the %d-feature universe %s (%d kinds x modes x requirements, "
         "pipelines of <= %d compilation kinds, %d problem-based requests) and %d mock configurations (strided walk through a "
-        "profile space of %d); the built-in registry answers all of them under %d preference lists, each mock registry one kind "
-        "slice (1/%d) under 2 preference lists; %d requests issued on %d fresh Environments, every answer judged by Factory!Select / Pipe. "
+        "profile space of %d); the built-in registry answers all of them under its default preference list and whole kind slices under %d "
+        "further lists (reversed, a strict sub-list, a rotation), each mock registry one kind slice (1/%d) under 2 preference lists; %d requests issued on %d fresh Environments, every answer judged by Factory!Select / Pipe. "
         "Non-trivial = the factory returned an engine or a pipeline."
-        % (bnd["nf"], universe, univ["kinds"], bnd["pipelen"], len(probs), bnd["nc"], univ["space"], len(b0.prefs), bnd["groups"], nreq, len(batches))
+        % (bnd["nf"], universe, univ["kinds"], bnd["pipelen"], len(probs), bnd["nc"], univ["space"], len(b0.prefs) - 1, bnd["groups"], nreq, len(batches))
     )
     ctx.cov["exhaustive"] = True
     ctx.assumptions += [
